@@ -199,6 +199,36 @@ fn step(w: &mut World, n: usize, kinds: &[Kind], shape_list: &[Vec<usize>]) {
     }
 }
 
+/// found missing by seed C09h: balances set through init_balance (genesis closure or init_modules)
+/// from a list that names a denomination twice, is unsorted or holds zeros — the three queries agree on
+/// the merged amounts, and a transfer of more than any single entry but less than their sum succeeds
+fn initial_balances_from_unnormalised_lists() {
+    let mut w = setup(false);
+    let carol = w.accts[2].clone();
+    let (c1, c2, c3) = (sym_u128("c1", 1, M), sym_u128("c2", 1, M), sym_u128("c3", 0, M));
+    let list = match choose(3) {
+        0 => vec![coin(c1, "x"), coin(c2, "x"), coin(c3, "y")],
+        1 => vec![coin(c3, "y"), coin(c1, "x"), coin(c2, "x")],
+        _ => vec![coin(c1, "x"), coin(c3, "y"), coin(c2, "x")],
+    };
+    w.app.init_modules(|router, _api, storage| router.bank.init_balance(storage, &carol, list.clone()).unwrap());
+    w.bal.insert((2, 0), add(v(c1), v(c2)));
+    w.bal.insert((2, 1), v(c3));
+    check_queries(&w, "after_init_");
+    // carol sends everything she has of x: more than either entry alone
+    let all_x = sym_u128("send", 1, 2 * M);
+    assume(eq(v(all_x), add(v(c1), v(c2))));
+    let r = w.app.execute(carol.clone(), BankMsg::Send { to_address: w.accts[1].to_string(), amount: vec![coin(all_x, "x")] }.into());
+    check_native("covered_transfer_succeeds", r.is_ok(), || format!("{:?}", r.as_ref().err().map(|e| e.to_string())));
+    if r.is_ok() {
+        w.bal.insert((2, 0), k(0));
+        let b = w.bal[&(1, 0)];
+        w.bal.insert((1, 0), add(b, v(all_x)));
+        check_queries(&w, "after_send_");
+    }
+    witness("init_lists");
+}
+
 pub fn scenarios(tier: &str) -> Vec<Scenario> {
     let all = [Kind::Send, Kind::Burn, Kind::Mint, Kind::ContractSend];
     let mut v = vec![];
@@ -220,6 +250,7 @@ pub fn scenarios(tier: &str) -> Vec<Scenario> {
     {
         let small = small.clone();
         // balance and supply answers after operations that FAILED having asked in between (seed C09f)
+        v.push(Scenario::new("initial_balances_from_unnormalised_lists", &["init_lists"], initial_balances_from_unnormalised_lists));
         v.push(Scenario::new("queries_agree_after_rolled_back_operations", &["rolled_back"], crate::c10::rolled_back_queries));
         v.push(Scenario::new("two_steps_small_shapes", &["some_ok", "some_err"], move || {
             // positive initial balances: zero/absent entries are produced by the first step
